@@ -1,3 +1,54 @@
-From Coq Require Import List. Require Import M_Parse.
-Theorem placeholder_C04 : True. Proof. exact I. Qed.
-Print Assumptions placeholder_C04.
+(* C04 - integer-id normalisation is a consistent bijection with NodeIds *)
+From Coq Require Import String Ascii List Bool Arith NArith ZArith.
+Require Import PyStr PyInt Sexp Xml M_C09 M_C08 Ns Table M_Parse T_Parse.
+Import ListNotations.
+Open Scope char_scope.
+
+(* each NodeId occurs once in the lookup table *)
+Theorem C04_lookup_injective : forall p,
+  NoDup (lookup_table p).
+Proof. exact C04_lookup_injective. Qed.
+
+(* two NodeIds with the same id are the same NodeId *)
+Theorem C04_one_id_per_nodeid : forall p x y j,
+  id_of (lookup_table p) x = Some j -> id_of (lookup_table p) y = Some j -> x = y.
+Proof. exact C04_one_id_per_nodeid. Qed.
+
+(* every node row has an id whose lookup entry is the row's NodeId *)
+Theorem C04_node_ids : forall p r,
+  In r (p_nodes p) ->
+  exists j, nn_id (normalize_node (lookup_table p) r) = Some j /\ nth_error (lookup_table p) j = Some (nr_nodeid r).
+Proof. exact C04_node_ids. Qed.
+
+(* DataType / ParentNodeId / MethodDeclarationId: a present attribute denormalises to the NodeId the document named; an absent one stays missing *)
+Theorem C04_attribute_ids : forall p r,
+  In r (p_nodes p) ->
+  let n := normalize_node (lookup_table p) r in
+  (forall x, ref_attr (lit "ParentNodeId") r = Some x -> exists j, nn_parent n = Some j /\ nth_error (lookup_table p) j = Some x) /\
+  (forall x, ref_attr (lit "DataType") r = Some x -> exists j, nn_datatype n = Some j /\ nth_error (lookup_table p) j = Some x) /\
+  (forall x, ref_attr (lit "MethodDeclarationId") r = Some x -> exists j, nn_methoddecl n = Some j /\ nth_error (lookup_table p) j = Some x) /\
+  (ref_attr (lit "ParentNodeId") r = None -> nn_parent n = None) /\
+  (ref_attr (lit "DataType") r = None -> nn_datatype n = None) /\
+  (ref_attr (lit "MethodDeclarationId") r = None -> nn_methoddecl n = None).
+Proof. exact C04_attribute_ids. Qed.
+
+(* the three columns of every reference denormalise to its NodeIds *)
+Theorem C04_reference_ids : forall p t,
+  In t (p_refs p) ->
+  normalize_ref (lookup_table p) t = (id_of (lookup_table p) (fst (fst t)), id_of (lookup_table p) (snd (fst t)), id_of (lookup_table p) (snd t)) /\
+  (exists j, id_of (lookup_table p) (fst (fst t)) = Some j /\ nth_error (lookup_table p) j = Some (fst (fst t))) /\
+  (exists j, id_of (lookup_table p) (snd (fst t)) = Some j /\ nth_error (lookup_table p) j = Some (snd (fst t))) /\
+  (exists j, id_of (lookup_table p) (snd t) = Some j /\ nth_error (lookup_table p) j = Some (snd t)).
+Proof. exact C04_reference_ids. Qed.
+
+(* with pairwise distinct NodeIds the id of a node row is its row position *)
+Theorem C04_ids_are_row_positions : forall p,
+  NoDup (map nr_nodeid (p_nodes p)) -> exists s, lookup_table p = map nr_nodeid (p_nodes p) ++ s.
+Proof. exact C04_ids_are_row_positions. Qed.
+
+Print Assumptions C04_lookup_injective.
+Print Assumptions C04_one_id_per_nodeid.
+Print Assumptions C04_node_ids.
+Print Assumptions C04_attribute_ids.
+Print Assumptions C04_reference_ids.
+Print Assumptions C04_ids_are_row_positions.
